@@ -114,6 +114,7 @@ type State struct {
 	lockOwner     map[string]int // vPar: 1 + thread that holds the mutex
 	fmtArgs   []Value
 	lastTokOperands []Value
+	tokLog          []tokRec // every strconv.Append* call of the path, in order
 	inArm    int // > 0 while executing one arm of a diamond that is being merged
 	dead     bool
 	finished bool
@@ -244,4 +245,9 @@ func (s *State) setBytesAt(obj int, path []int, b *BytesVal) {
 	no := *o
 	no.val = setAt(o.val, path, b)
 	s.heap[obj] = &no
+}
+
+type tokRec struct {
+	fn  string
+	ops []Value
 }
